@@ -13,6 +13,14 @@
                                       PropagateDecoderPipeBlankNodeStringProvider           → `getQuadsEncoder`, `pipeProvider`
     encoding/encodingutil/quad_as_triple.go, triples_as_quad.go                             → `quadAsTriple`, `tripleAsQuad`
     cmd/rdfkit/pipecmd/command.go     the decode → adapt → encode loop                      → `pipeStatements`, `labelQuads`, `pipeNQ`
+    cmd/rdfkit/cmdflags/encoding_output.go   EncodingOutput.Open (flags → EncoderOptions)     → `OutFlags`, `encoderBase`
+    rdfio/rdfiotypes/registry.go      Registry.NewEncoder (`BaseIRI` defaults to `ww.GetIRI()`) → `encoderBase`
+    rdfio/rdfiotypes/params.go, kvstrings   LoadAndApplyParams / Collection.ImportStrings    → `splitFirst`, `parseBool`, `importAll`
+    encoding/{nquads,ntriples}/…rdfio/encoder.go, encoder_params.go   `ascii`                 → `NQParams`, `nqAscii`, `pipeNQp`
+    encoding/rdfjson/rdfjsonrdfio/encoder.go (no parameters)                                  → `rjParamsOK`, `pipeRJ`
+    encoding/turtle/turtlerdfio/encoder.go, encoder_params.go   `buffered`, `iris.useBase`,
+                                      `iris.usePrefix`, `resources` → `turtle.EncoderConfig`    → `TtlParams`, `ttlPrefixes`, `ttlOptions`, `pipeTtl`
+    (the Turtle / RDF-JSON encoders themselves are `Model/TurtleEncoder.lean` (C02) and `Model/RdfJson.lean` (C01))
 
   Conventions.
   * Go strings are byte lists (`Str`); `strings.ToLower` is modelled for ASCII only (`asciiLower`); T3 feeds
@@ -31,6 +39,8 @@
 import RdfModel.Model.Term
 import RdfModel.Model.BlankNodes
 import RdfModel.Model.NQuads
+import RdfModel.Model.TurtleEncoder
+import RdfModel.Model.RdfJson
 namespace RdfModel.Pipe
 open RdfModel
 
@@ -300,5 +310,238 @@ def pipeNQ (T : NQ.Tables) (ascii quads : Bool) (U : Nat → Bytes) (s : State) 
   | (s1, some p) =>
     pipeLoop T ascii quads U p 0 s1 (pipeStatements src (if quads then .quads else .triples) decoded) []
   | (_, none) => .outside
+
+/-! ## `--out-param KEY[=VALUE]` → encoder options (builder-c18b)
+
+  Conventions of this part: parameter strings, prefix labels, namespaces and base IRIs are code-point lists
+  (`[]rune(s)` of a valid UTF-8 Go string; the Go code splits at the ASCII bytes `=` and `:` and compares with ASCII
+  keys only, which commutes with UTF-8 decoding), because that is what `Model/TurtleEncoder.lean` works on. -/
+
+/-- `strings.SplitN(raw, sep, 2)`: `(before, some after)` at the first `sep`; `(raw, none)` when there is none -/
+def splitFirst (sep : Nat) : List Nat → List Nat × Option (List Nat)
+  | [] => ([], none)
+  | c :: rest =>
+    if c = sep then ([], some rest)
+    else let r := splitFirst sep rest; (c :: r.1, r.2)
+
+/-- `strconv.ParseBool` -/
+def parseBool (v : List Nat) : Option Bool :=
+  if v = RdfModel.asc "1" ∨ v = RdfModel.asc "t" ∨ v = RdfModel.asc "T" ∨ v = RdfModel.asc "true" ∨
+     v = RdfModel.asc "TRUE" ∨ v = RdfModel.asc "True" then some true
+  else if v = RdfModel.asc "0" ∨ v = RdfModel.asc "f" ∨ v = RdfModel.asc "F" ∨ v = RdfModel.asc "false" ∨
+     v = RdfModel.asc "FALSE" ∨ v = RdfModel.asc "False" then some false
+  else none
+
+/-- a boolean parameter (`kvref.BoolPtr`): `KEY` alone is `KEY=true` (`GetImpliedValue`); `none` = error -/
+def boolParam (v : Option (List Nat)) : Option Bool := parseBool (v.getD (RdfModel.asc "true"))
+
+/-- `Collection.ImportStrings`: the raw strings in order, the first error aborts (`none`) -/
+def importAll {P : Type} (f : P → List Nat → Option P) : P → List (List Nat) → Option P
+  | p, [] => some p
+  | p, raw :: rest =>
+    match f p raw with
+    | some p' => importAll f p' rest
+    | none => none
+
+/-- `nquadsrdfio.encoderParams` / `ntriplesrdfio.encoderParams` -/
+structure NQParams where
+  ascii : Option Bool := none
+  deriving Repr, DecidableEq, Inhabited
+
+def NQParams.import1 (p : NQParams) (raw : List Nat) : Option NQParams :=
+  let kv := splitFirst 0x3d raw
+  if kv.1 = RdfModel.asc "ascii" then (boolParam kv.2).map (fun b => { p with ascii := some b })
+  else none
+
+/-- the `ascii` flag the N-Quads / N-Triples encoder ends up with: `SetASCII(*params.Ascii)` only when the
+    parameter was given (`ApplyDefaults` does nothing), else the encoder's own default `false`; `none` =
+    `params: …` error -/
+def nqAscii (raw : List (List Nat)) : Option Bool :=
+  (importAll NQParams.import1 {} raw).map (fun p => p.ascii.getD false)
+
+/-- `rdfjsonrdfio.encoderParams`: an empty collection — every parameter is an `unknown key` error -/
+def rjParamsOK (raw : List (List Nat)) : Bool := raw.isEmpty
+
+/-- `turtlerdfio.encoderParams` -/
+structure TtlParams where
+  buffered : Option Bool := none
+  irisUseBase : Option Bool := none
+  irisUsePrefixes : List (List Nat) := []
+  resources : Option Bool := none
+  deriving Repr, DecidableEq, Inhabited
+
+def TtlParams.import1 (p : TtlParams) (raw : List Nat) : Option TtlParams :=
+  let kv := splitFirst 0x3d raw
+  if kv.1 = RdfModel.asc "buffered" then (boolParam kv.2).map (fun b => { p with buffered := some b })
+  else if kv.1 = RdfModel.asc "iris.useBase" then (boolParam kv.2).map (fun b => { p with irisUseBase := some b })
+  else if kv.1 = RdfModel.asc "iris.usePrefix" then
+    -- `kvref.StringList`: appends; no implied value (`ErrMissingValue`)
+    kv.2.map (fun v => { p with irisUsePrefixes := p.irisUsePrefixes ++ [v] })
+  else if kv.1 = RdfModel.asc "resources" then (boolParam kv.2).map (fun b => { p with resources := some b })
+  else none
+
+/-- `encoderParams.ApplyDefaults` -/
+def TtlParams.applyDefaults (p : TtlParams) : TtlParams :=
+  { buffered := some (p.buffered.getD true)
+    irisUseBase := some (p.irisUseBase.getD true)
+    irisUsePrefixes := if p.irisUsePrefixes.isEmpty then [RdfModel.asc "rdfa-context"] else p.irisUsePrefixes
+    resources := some (p.resources.getD false) }
+
+/-- the loop over `params.IrisUsePrefixes` in `turtlerdfio.encoder.NewEncoder`; `rdfa` =
+    `rdfacontext.AppendWidelyUsedInitialContext(nil)`; `none` = `flag[prefixes]: invalid prefix format` -/
+def ttlPrefixes (rdfa : List Prefix.Mapping) : List (List Nat) → List Prefix.Mapping → Option (List Prefix.Mapping)
+  | [], acc => some acc
+  | p :: rest, acc =>
+    if p = RdfModel.asc "rdfa-context" then ttlPrefixes rdfa rest (acc ++ rdfa)
+    else if p = RdfModel.asc "none" then ttlPrefixes rdfa rest []
+    else
+      match splitFirst 0x3a p with
+      | (l, some ns) => ttlPrefixes rdfa rest (acc ++ [⟨l, ns⟩])
+      | (_, none) => none
+
+/-- `turtlerdfio.encoder.NewEncoder`: parameters → (`turtle.EncoderConfig`, wrap in `BufferedTriplesEncoder`?).
+    `base` = `opts.BaseIRI` (see `encoderBase`). `SetBuffered(true)` only when `buffered`; `SetBase` only when
+    `iris.useBase`; `SetPrefixes` only for a non-empty list; `bufferedSort` and the directive modes are never
+    set by the command. `none` = the command fails with `output: encoder: …`. -/
+def ttlOptions (rdfa : List Prefix.Mapping) (raw : List (List Nat)) (base : List Nat) : Option (TtlEnc.Config × Bool) :=
+  match importAll TtlParams.import1 {} raw with
+  | none => none
+  | some p0 =>
+    let p := p0.applyDefaults
+    match ttlPrefixes rdfa p.irisUsePrefixes [] with
+    | none => none
+    | some prefixes =>
+      some ({ base := if p.irisUseBase = some true then some base else none
+              prefixes := prefixes
+              buffered := if p.buffered = some true then some true else none },
+            p.resources = some true)
+
+/-- `cmdflags.EncodingOutput` (the `--out*` flags of `rdfkit pipe`) -/
+structure OutFlags where
+  /-- `--out`, `-o` -/
+  name : List Nat := []
+  /-- `--out-type` -/
+  type : List Nat := []
+  /-- `--out-base` -/
+  base : List Nat := []
+  /-- `--out-param` (repeatable) -/
+  params : List (List Nat) := []
+  deriving Repr, DecidableEq, Inhabited
+
+/-- `EncoderOptions.BaseIRI` as the encoder manager sees it: `--out-base` when non-empty
+    (`EncoderOptions.ApplyOptions`), else `ww.GetIRI()` (`Registry.NewEncoder`) — the IRI of the OUTPUT
+    resource. The decoder's base (`--in-base` / the input's IRI) is not propagated to the encoder. -/
+def encoderBase (f : OutFlags) : List Nat :=
+  if f.base ≠ [] then f.base else fileIRI (RdfModel.asc "/dev/stdout") f.name
+
+/-! ## The pipe into Turtle and RDF/JSON -/
+
+/-- a labelled statement as an `rdf.Triple` of `Model/Description.lean` (`none`: a predicate that is not an IRI
+    — not constructible in Go, `rdf.PredicateValue`) -/
+def toTriple {β : Type} (q : Quad β) : Option (Desc.Triple β) :=
+  match q.p with
+  | .iri p => some ⟨q.s, p, q.o⟩
+  | _ => none
+
+def toTriples {β : Type} : List (Quad β) → Option (List (Desc.Triple β))
+  | [] => some []
+  | q :: rest => consOpt (toTriple q) (toTriples rest)
+
+/-- the same statement for `Model/RdfJson.lean` -/
+def toRJ {β : Type} (q : Quad β) : RJ.Triple β := ⟨q.s, q.p, q.o⟩
+
+inductive OutResult where
+  | ok (doc : List Nat)
+  /-- `output: encoder: …`: bad parameter, bad prefix format -/
+  | openErr
+  /-- `write: …` (`AddQuad` returned an error) or an error of `Close` -/
+  | writeErr
+  /-- Go run-time panic (`RelativizeIRI` on an insane base, see `Prefix.relativizeB`) -/
+  | panic
+  | outside
+  deriving Repr, DecidableEq, Inhabited
+
+def OutResult.ofRes : TtlEnc.Res (List Nat) → OutResult
+  | .ok d => .ok d
+  | .err => .writeErr
+  | .panic => .panic
+
+def OutResult.ofOR : TtlEnc.OR (List Nat) → OutResult
+  | some r => OutResult.ofRes r
+  | none => .outside
+
+open BN in
+/-- `rdfkit pipe` with a **Turtle** target: `raw` = the `--out-param` strings, `base` = `encoderBase`, `mk` = the
+    prefix manager built from the prefix list (parameter: see `pipeTtl`), `ord1`/`ord2` = iteration orders of `ExportResources`
+    (`resources` only). Code points of the document.
+    Labels: the provider is asked in statement order (subject, object) by `AddTriple`. With `resources` the Go
+    encoder asks only at `Close`, in writing order and never for a node it inlines as `[ … ]`: the fresh UUID
+    texts are then drawn in another order (and fewer of them) — the model's document and Go's agree up to a
+    renaming of the fresh texts `U k`; labelled nodes are unaffected. -/
+def pipeTtlWith (T : Ttl.Tables) (rdfa : List Prefix.Mapping) (mk : List Prefix.Mapping → Prefix.PM)
+    (raw : List (List Nat)) (base : List Nat)
+    (ord1 ord2 : List (Term Bytes)) (U : Nat → Bytes) (s : State) (h : Option FactoryRef)
+    (src : Kind) (decoded : List (Quad Node)) : OutResult :=
+  match ttlOptions rdfa raw base with
+  | none => .openErr
+  | some (cfg, resources) =>
+    match pipeProvider U s h with
+    | (s1, some p) =>
+      match (labelQuads U p s1 (pipeStatements src .triples decoded)).2 with
+      | none => .outside
+      | some lqs =>
+        match toTriples lqs with
+        | none => .outside
+        | some ts =>
+          let pm := mk cfg.prefixes
+          if resources then OutResult.ofOR (TtlEnc.encodeResourcesWith T false cfg pm id ord1 ord2 ts)
+          else OutResult.ofRes (TtlEnc.encodePlainWith T cfg pm id ts)
+    | (_, none) => .outside
+
+open BN in
+/-- … with the manager `iri.NewPrefixManager(cfg.prefixes)` (`S` = the tie-break of its unstable sort) -/
+def pipeTtl (T : Ttl.Tables) (rdfa : List Prefix.Mapping) (S : Prefix.Sorter) (raw : List (List Nat)) (base : List Nat)
+    (ord1 ord2 : List (Term Bytes)) (U : Nat → Bytes) (s : State) (h : Option FactoryRef)
+    (src : Kind) (decoded : List (Quad Node)) : OutResult :=
+  pipeTtlWith T rdfa (Prefix.new S) raw base ord1 ord2 U s h src decoded
+
+/-- the `AddTriple` calls of the pipe loop on the RDF/JSON encoder: the first refused statement ends the
+    command (`write: …`) -/
+def rjAddAll : RJ.State → List (RJ.Triple (List Nat)) → Option RJ.State
+  | st, [] => some st
+  | st, t :: rest =>
+    match RJ.addTriple id st t with
+    | some st' => rjAddAll st' rest
+    | none => none
+
+inductive RJResult where
+  /-- the JSON token stream of the document `Close` marshals (the JSON text layer is outside the model) -/
+  | ok (toks : List RJ.Tok)
+  | openErr
+  | writeErr
+  | outside
+  deriving Repr, DecidableEq, Inhabited
+
+open BN in
+/-- `rdfkit pipe` with an **RDF/JSON** target -/
+def pipeRJ (raw : List (List Nat)) (U : Nat → Bytes) (s : State) (h : Option FactoryRef)
+    (src : Kind) (decoded : List (Quad Node)) : RJResult :=
+  if !rjParamsOK raw then .openErr
+  else
+    match pipeProvider U s h with
+    | (s1, some p) =>
+      match (labelQuads U p s1 (pipeStatements src .triples decoded)).2 with
+      | none => .outside
+      | some lqs =>
+        match rjAddAll [] (lqs.map toRJ) with
+        | some st => .ok (RJ.encodeTokens st)
+        | none => .writeErr
+    | (_, none) => .outside
+
+open BN in
+/-- `rdfkit pipe` with an N-Quads / N-Triples target and `--out-param`s -/
+def pipeNQp (T : NQ.Tables) (quads : Bool) (raw : List (List Nat)) (U : Nat → Bytes) (s : State)
+    (h : Option FactoryRef) (src : Kind) (decoded : List (Quad Node)) : Option PipeResult :=
+  (nqAscii raw).map (fun ascii => pipeNQ T ascii quads U s h src decoded)
 
 end RdfModel.Pipe
